@@ -169,6 +169,18 @@ def lookupAttr (n : Name) : List (Name × Name) → Option Name
   | [] => none
   | (k, v) :: rest => if k = n then some v else lookupAttr n rest
 
+def notMark (c : Char) : Bool := c != '\x01'
+
+def lowerName (n : Name) : Name := n.map Char.toLower
+
+/-- Does the element's attribute value `w` satisfy `[n=v]`?  `v` carries the selector's value and,
+    after U+0001, its modifier (attribute.rs:139): `i` compares ASCII case-insensitively
+    (Selectors 4 §6.3), `s` or no modifier exactly. -/
+def attrValMatch (v w : Name) : Bool :=
+  let val := v.takeWhile notMark
+  let md := (v.dropWhile notMark).drop 1
+  if md = ['i'] || md = ['I'] then lowerName val == lowerName w else val == w
+
 /-! ### matching semantics (CSS Selectors 4 restricted to the alphabet) -/
 mutual
 def mSimple : Simple → Ctx → Bool
@@ -177,7 +189,10 @@ def mSimple : Simple → Ctx → Bool
   | .cls n, p => p.cur.el.classes.contains n
   | .id n, p => decide (p.cur.el.id = some n)
   | .attr n none, p => (lookupAttr n p.cur.el.attrs).isSome
-  | .attr n (some v), p => decide (lookupAttr n p.cur.el.attrs = some v)
+  | .attr n (some v), p =>
+    match lookupAttr n p.cur.el.attrs with
+    | some w => attrValMatch v w
+    | none => false
   | .pclass n, p => p.cur.el.flags.contains n
   | .pelem n, p => decide (p.cur.el.pe = some n)
   | .placeholder _, _ => false
@@ -752,7 +767,6 @@ def selectorAppend : List SelList → Except RErr SelList
 /-- The model keeps an attribute's value and its modifier (`[t="v w" i]`, attribute.rs:139–157) in
     one opaque name: value, then U+0001 and the modifier letter.  Printed like attribute.rs:168:
     bare when the value is an identifier, double-quoted otherwise, then ` i`. -/
-def notMark (c : Char) : Bool := c != '\x01'
 def isIdentStartB (c : Char) : Bool := c.isAlpha || c == '_' || c == '-'
 def isIdentCharB (c : Char) : Bool := c.isAlphanum || c == '_' || c == '-'
 
@@ -982,7 +996,7 @@ def elemOf (c : Compound) : Elem :=
     | .cls n => if e.classes.contains n then e else { e with classes := e.classes ++ [n] }
     | .id n => { e with id := some n }
     | .attr n none => if (lookupAttr n e.attrs).isSome then e else { e with attrs := e.attrs ++ [(n, nm "v")] }
-    | .attr n (some v) => { e with attrs := (n, v) :: e.attrs.filter (fun kv => kv.1 ≠ n) }
+    | .attr n (some v) => { e with attrs := (n, v.takeWhile notMark) :: e.attrs.filter (fun kv => kv.1 ≠ n) }
     | .pclass n => if e.flags.contains n then e else { e with flags := e.flags ++ [n] }
     | .pelem n => { e with pe := some n }
     | _ => e) neutralElem
@@ -1071,7 +1085,11 @@ def applyAtom (e : Elem) : Simple → List Elem
   | .type n => [{ e with type := n }]
   | .cls n => [{ e with classes := if e.classes.contains n then e.classes.filter (· ≠ n) else e.classes ++ [n] }]
   | .id n => [{ e with id := some n }]
-  | .attr n v => [{ e with attrs := (n, v.getD ['v']) :: e.attrs.filter (fun kv => kv.1 ≠ n) }]
+  | .attr n v =>
+    -- the selector's value as written and in the other letter case (for the `i` modifier)
+    let val := (v.getD ['v']).takeWhile notMark
+    [{ e with attrs := (n, val) :: e.attrs.filter (fun kv => kv.1 ≠ n) },
+     { e with attrs := (n, val.map Char.toUpper) :: e.attrs.filter (fun kv => kv.1 ≠ n) }]
   | .pclass n => [{ e with flags := if e.flags.contains n then e.flags.filter (· ≠ n) else e.flags ++ [n] }]
   | .pelem n => [{ e with pe := some n }]
   | _ => []
@@ -1087,6 +1105,7 @@ def elemVariants (atoms : List Simple) (e : Elem) : List Elem :=
     { e with classes := toggle e.classes (nm "x") }, { e with classes := toggle e.classes (nm "y") },
     { e with id := none }, { e with id := some (nm "i") }, { e with id := some (nm "j") },
     { e with attrs := [] }, { e with attrs := [(nm "t", nm "v")] }, { e with attrs := [(nm "t", nm "w")] },
+    { e with attrs := [(nm "t", nm "V")] },
     { e with flags := toggle e.flags (nm "hover") }, { e with flags := toggle e.flags (nm "focus") },
     { e with pe := none }, { e with pe := some (nm "before") }, { e with pe := some (nm "after") } ]).eraseDups.filter (· ≠ e)
 
@@ -1117,7 +1136,7 @@ def randElem (s : Nat) : Elem × Nat :=
   let ty := if pick s1 2 == 0 then nm "a" else nm "b"
   let cl := match pick s2 4 with | 0 => [] | 1 => [nm "x"] | 2 => [nm "y"] | _ => [nm "x", nm "y"]
   let id := match pick s3 3 with | 0 => none | 1 => some (nm "i") | _ => some (nm "j")
-  let at_ := match pick s4 4 with | 0 => [] | 1 => [] | 2 => [(nm "t", nm "v")] | _ => [(nm "t", nm "w")]
+  let at_ := match pick s4 5 with | 0 => [] | 1 => [] | 2 => [(nm "t", nm "v")] | 3 => [(nm "t", nm "V")] | _ => [(nm "t", nm "w")]
   let fl := match pick s5 4 with | 0 => [] | 1 => [nm "hover"] | 2 => [nm "focus"] | _ => [nm "hover", nm "focus"]
   let pe := match pick s6 8 with | 0 => some (nm "before") | 1 => some (nm "after") | _ => none
   ({ type := ty, id := id, classes := cl, attrs := at_, flags := fl, pe := pe }, s6)
